@@ -20,3 +20,14 @@ package swarm
 //@ ensures ncalls(Write, 0) == 1 && arg(Write, 0, 0) == s.stream && arg(Write, 0, 1) == p
 //@ ensures result0 == ret(Write, 0, 0) && result1 == ret(Write, 0, 1)
 //@ modifies nothing
+
+// half-close delegates to the half-close of the muxed stream (never to Close: the read side stays usable)
+//@ func (s *Stream) CloseWrite
+//@ prop C02
+//@ ensures ncalls(CloseWrite, 0) == 1 && arg(CloseWrite, 0, 0) == s.stream && result == ret(CloseWrite, 0, 0)
+//@ modifies nothing
+
+//@ func (s *Stream) CloseRead
+//@ prop C02
+//@ ensures ncalls(CloseRead, 0) == 1 && arg(CloseRead, 0, 0) == s.stream && result == ret(CloseRead, 0, 0)
+//@ modifies nothing
